@@ -26,8 +26,7 @@ def families(ctx, quick):
     for k in range(1 if quick else 6):
         fams.append(("short-circuit #%d" % k, lang.shortcircuit_program(rng), ("vm", "native")))
         fams.append(("scoping #%d" % k, lang.scoping_program(rng), ("vm", "native")))
-        # native operand/argument order is the C compiler's choice (known finding F-C02-2): this family judges the VM only
-        fams.append(("operand-order #%d" % k, lang.operand_order_program(rng), ("vm",)))
+        fams.append(("operand-order #%d" % k, lang.operand_order_program(rng), ("vm", "native")))
     fams.append(("argument-order (F-C02-2)", lang.ARG_ORDER_WITNESS, ("vm", "native")))
     fams.append(("strconv", lang.strconv_program(rng.sample(vals, 8) + [-9223372036854775808, -1000000000000000000]), ("vm", "native")))
     n = 40 if quick else 600
